@@ -215,6 +215,9 @@ func (tr *gtTr) expr(e ast.Expr, env *venv) ex {
 		if v == nil {
 			gtFail("identifier %s is neither a local, a parameter nor a constant", x.Name)
 		}
+		if v.typ == tBuffer {
+			gtFail("the bytes.Buffer %s is used other than through Write*, Reset, String, Bytes, Len, template.HTMLEscape(&%s, ...)", v.goName, v.goName)
+		}
 		return tr.useVar(v)
 	case *ast.BasicLit:
 		gtFail("literal %s is outside the subset", x.Value)
@@ -717,6 +720,18 @@ func (tr *gtTr) call(c *ast.CallExpr, env *venv) ex {
 				return tr.makeCall(c, env)
 			}
 			gtFail("call of %s is outside the subset", id.Name)
+		}
+	}
+	// b.String() / b.Bytes() / b.Len() of a local bytes.Buffer
+	if v := tr.bufferVar(c.Fun, env); v != nil && len(c.Args) == 0 {
+		cur := tr.useVar(v).code
+		switch c.Fun.(*ast.SelectorExpr).Sel.Name {
+		case "String":
+			return ex{code: cur, typ: tString}
+		case "Bytes":
+			return ex{code: cur, typ: tBytes}
+		case "Len":
+			return ex{code: "(go_len " + cur + ")", typ: basicInts["int"]}
 		}
 	}
 	// library functions
@@ -1564,4 +1579,80 @@ func (tr *gtTr) ifaceMethod(c *ast.CallExpr, env *venv) (ex, bool) {
 		return ex{code: name, typ: rt}, true
 	}
 	return ex{}, false
+}
+
+// bufferVar: fun is b.M with b a local variable of type bytes.Buffer
+func (tr *gtTr) bufferVar(fun ast.Expr, env *venv) *gvar {
+	sel, ok := fun.(*ast.SelectorExpr)
+	if !ok {
+		return nil
+	}
+	id, ok := unparen(sel.X).(*ast.Ident)
+	if !ok {
+		return nil
+	}
+	if v := env.lookup(id.Name); v != nil && v.typ == tBuffer {
+		return v
+	}
+	return nil
+}
+
+// bufferWrite: is the call a write into a local bytes.Buffer?  b.WriteString(s) / b.Write(p) / b.WriteByte(c) /
+// b.Reset() / template.HTMLEscape(&b, p) (text/template).  Returns the variable's Go name and the kind of write.
+func (tr *gtTr) bufferWrite(c *ast.CallExpr, env *venv) (name, kind string, arg ast.Expr, ok bool) {
+	if v := tr.bufferVar(c.Fun, env); v != nil {
+		m := c.Fun.(*ast.SelectorExpr).Sel.Name
+		switch {
+		case (m == "WriteString" || m == "Write" || m == "WriteByte") && len(c.Args) == 1:
+			return v.goName, m, c.Args[0], true
+		case m == "Reset" && len(c.Args) == 0:
+			return v.goName, m, nil, true
+		}
+		return "", "", nil, false
+	}
+	if pkg, fn, isLib := tr.libCall(c, env); isLib && pkg == "text/template" && fn == "HTMLEscape" && len(c.Args) == 2 {
+		if u, isAddr := unparen(c.Args[0]).(*ast.UnaryExpr); isAddr && u.Op == token.AND {
+			if id, isId := unparen(u.X).(*ast.Ident); isId {
+				if v := env.lookup(id.Name); v != nil && v.typ == tBuffer {
+					return v.goName, "HTMLEscape", c.Args[1], true
+				}
+			}
+		}
+	}
+	return "", "", nil, false
+}
+
+// bufferStmt: a write into a local bytes.Buffer is an assignment of the bytes written so far
+func (tr *gtTr) bufferStmt(c *ast.CallExpr, env *venv, next cont) (gnode, bool) {
+	name, kind, arg, ok := tr.bufferWrite(c, env)
+	if !ok {
+		return nil, false
+	}
+	cur := tr.useVar(env.lookup(name)).code
+	var val ex
+	switch kind {
+	case "Reset":
+		val = ex{code: "(@nil N)", typ: tBuffer}
+	case "WriteByte":
+		a := tr.expr(arg, env)
+		if a.typ.kind != kInt {
+			gtFail("WriteByte of a %s", a.typ.name)
+		}
+		a = tr.coerce(a, basicInts["byte"], "WriteByte")
+		val = ex{binds: a.binds, code: "(" + cur + " ++ [Z.to_N " + a.code + "])", typ: tBuffer}
+	case "HTMLEscape":
+		a := tr.expr(arg, env)
+		if a.typ.kind != kString {
+			gtFail("template.HTMLEscape of a %s", a.typ.name)
+		}
+		tr.fn.addAbstract(gtAbstract{name: "f_template_HTMLEscape", typ: "bstr -> bstr"})
+		val = ex{binds: a.binds, code: "(" + cur + " ++ (f_template_HTMLEscape " + a.code + "))", typ: tBuffer}
+	default:
+		a := tr.expr(arg, env)
+		if a.typ.kind != kString {
+			gtFail("%s of a %s", kind, a.typ.name)
+		}
+		val = ex{binds: a.binds, code: "(" + cur + " ++ " + a.code + ")", typ: tBuffer}
+	}
+	return tr.bindNew(env, name, val, false, next), true
 }
